@@ -9,6 +9,19 @@ _PENDING = "no registered check yet at this commit (model and correspondence und
 NOT_APPLICABLE = {f"C{i:02d}": _PENDING for i in range(1, 21)}
 
 META = {
+    "C19": {
+        "text": ("PARTIAL. Proved in Lean for every input: the character-class tokenizer (base of the letter and whitespace tokenizers) "
+                 "emits tokens with 0 <= Start < End <= len(input), non-overlapping in increasing order, positions exactly 1..n (loop "
+                 "invariant by induction over the rune sequence; the model is compared with the real tokenizers on every run). The "
+                 "rest of the property - no panic / termination of all ~110 registered components on arbitrary bytes, tokenizer "
+                 "invariants of the third-party tokenizers, highlighter clauses - is explored registry-wide under recover and a time "
+                 "limit, including the fragmenter with arbitrary term locations and end-to-end highlighting with length-changing "
+                 "analyzers."),
+        "design_ref": "DESIGN.md section 4, C19",
+        "note": ("trusted: Lean kernel, Go harness. No executable Lean model of this size can carry the registry of third-party analysis "
+                 "components; for them the check is exploration (fuzzing), and is labelled so."),
+        "technique": "Lean 4 proof for bleve's own tokenizer (loop invariant) + registry-wide exploration under recover for the rest",
+    },
     "C17": {
         "text": ("Lean theorem, decided by the kernel on tables regenerated from /repo on every run: for every query type of the family "
                  "and every subset of its optional JSON keys that a valid query can emit (struct tags), the ordered decision list of "
